@@ -173,8 +173,11 @@ func short(s string, n int) string {
 	return s
 }
 
-// load runs the real loader with the given file content ("" = no file) and environment.
-func (w *world) load(file string, vars []envVar) *outcome {
+// load runs the real loader with the given file content ("" = no file) and environment under the default prefix.
+func (w *world) load(file string, vars []envVar) *outcome { return w.loadP(envPrefix, file, vars) }
+
+// loadP runs the real loader told to read the environment variables starting with prefix (--env-config-prefix).
+func (w *world) loadP(prefix, file string, vars []envVar) *outcome {
 	w.setEnv(vars)
 	path := ""
 	if file != "" {
@@ -188,7 +191,7 @@ func (w *world) load(file string, vars []envVar) *outcome {
 				o.errLines = []string{o.LoadErr}
 			}
 		}()
-		c, err := config.NewConfiguration(config.EnvVarPrefix(envPrefix), config.ConfigurationPath(path))
+		c, err := config.NewConfiguration(config.EnvVarPrefix(prefix), config.ConfigurationPath(path))
 		if err != nil {
 			o.LoadErr = short(err.Error(), 400)
 			for _, l := range strings.Split(err.Error(), "\n") {
@@ -225,7 +228,7 @@ func (w *world) checkUsable(o *outcome) {
 		logger := zerolog.Nop()
 		mf, err := mechanisms.NewMechanismFactory(o.conf, logger, nopWatcher{}, &registry{}, nopObserver{})
 		if err != nil {
-			o.UseErr = "mechanisms: " + short(err.Error(), 300)
+			o.UseErr = "mechanisms: " + short(err.Error(), 700)
 			return
 		}
 		if _, err = rules.NewRuleFactory(mf, o.conf, config.DecisionMode, logger); err != nil {
